@@ -334,6 +334,15 @@ def u_sum_to(W, sk):
     SL.check_raises(W, "sum_to(unknown letter)", out, KeyError)
     out = W.call(lambda: x.sum_to(keys + ("NoSuchDimension",)))
     SL.check_raises(W, "sum_to(unknown name)", out, KeyError)
+    # strings that are no letter and no name of a dimension, although they are made of the array's letters
+    glued = "".join(sk["x"])
+    for bad in ([glued] if len(glued) >= 2 else []) + [glued[:2] if len(glued) >= 3 else None, ""]:
+        if bad is None:
+            continue
+        out = W.call(lambda: x.sum_to((bad,)))
+        SL.check_raises(W, f"sum_to(key {bad!r} made of letters)", out, KeyError)
+        out = W.call(lambda: x.sum_values_to((bad,)))
+        SL.check_raises(W, f"sum_values_to(key {bad!r} made of letters)", out, KeyError)
     SL.check_unchanged(W, "sum_to", snaps)
 
 
@@ -378,6 +387,14 @@ def u_sum_over(W, sk):
         W.prove("sum_over.grand_total_preserved", W.num_eq(SL.marg(part, ()).at({}), SL.marg(X, ()).at({})))
     out = W.call(lambda: x.sum_over(keys + ("q",)))
     SL.check_raises(W, "sum_over(unknown)", out, KeyError)
+    glued = "".join(sk["x"])
+    for bad in ([glued] if len(glued) >= 2 else []) + [glued[-2:] if len(glued) >= 3 else None, ""]:
+        if bad is None:
+            continue
+        out = W.call(lambda: x.sum_over((bad,)))
+        SL.check_raises(W, f"sum_over(key {bad!r} made of letters)", out, KeyError)
+        out = W.call(lambda: x.sum_values_over((bad,)))
+        SL.check_raises(W, f"sum_values_over(key {bad!r} made of letters)", out, KeyError)
     SL.check_unchanged(W, "sum_over", snaps)
 
 
